@@ -29,8 +29,8 @@ EXPLANATION = (
     "is control-dependent on an output switch (SIM_OUTPUT.*, show/markdown flags, log levels); R3.6 identifiers never order "
     "behaviour: no sorted()/min()/max()/sort() over a mapping keyed by uuid4 (recognised from its `[x.uuid] = ...` stores) or "
     "over its keys()/items(), and no sort key that reads .uuid; R3.7 = C04's R4.2 (an output switch guards logging statements "
-    "R3.8 the numeric settings this property depends on are never tested by truthiness (`x or default`, `if x:`), because 0 is a legal value for them. "
-    "only) applied here; R3.1 also inventories sources handed over uncalled (default_factory=np.random.default_rng). NOT decided: equality "
+    "only) applied here; R3.1 also inventories sources handed over uncalled (default_factory=np.random.default_rng). R3.8 the numeric settings this property depends on are never tested by truthiness (`x or default`, `if x:`) - 0 is a legal value for them. "
+    "NOT decided: equality "
     "of trajectories, float reproducibility, behaviour of third-party libraries."
 )
 TECHNIQUE = "static: inventory of entropy/clock sources against a frozen table, taint of variable-width values into length measurements, set-iteration order analysis, CFG seeding discipline"
